@@ -14,7 +14,8 @@ def H(name, srcs, variant='rel', **kw):
 
 
 CHECKS = {}
-WORDS_DIR = os.path.join(os.path.dirname(os.path.abspath(__file__)), 'build', 'run', 'words')
+# per driver process: two checks (C19 and C20, or two runs of one check) may execute at the same time
+WORDS_DIR = os.path.join(os.path.dirname(os.path.abspath(__file__)), 'build', 'run', 'words-%d' % os.getpid())
 
 CHECKS['C18'] = dict(
     level='exploration',
@@ -378,7 +379,7 @@ CHECKS['C20'] = dict(
     ],
 )
 
-C02_AUX = os.path.join(os.path.dirname(os.path.abspath(__file__)), 'build', 'run', 'c02-digests')
+C02_AUX = os.path.join(os.path.dirname(os.path.abspath(__file__)), 'build', 'run', 'c02-digests-%d' % os.getpid())
 
 
 def _c02_clean():
@@ -386,6 +387,20 @@ def _c02_clean():
     os.makedirs(os.path.dirname(C02_AUX), exist_ok=True)
     for f in glob.glob(C02_AUX + '.w*'):
         os.remove(f)
+
+
+def _scratch_cleanup():
+    import glob, shutil
+    shutil.rmtree(WORDS_DIR, ignore_errors=True)
+    for f in glob.glob(C02_AUX + '*'):
+        try:
+            os.remove(f)
+        except OSError:
+            pass
+
+
+import atexit
+atexit.register(_scratch_cleanup)
 
 
 CHECKS['C02'] = dict(
